@@ -1,1 +1,24 @@
+(* statement pins and axiom audit for C06 (compiled on every check; regenerate BY HAND with driver/mkpins.py) *)
+From ChiaV.Base Require Import Bytes.
+From ChiaV.Clvm Require Import Sexp Ints.
+From ChiaV.Cond Require Import Model Strict.
+Open Scope N_scope.
 From ChiaV.Props Require Import C06.
+Check C06_strict_implies_lenient :
+  forall vk H K V fl fl',
+  (f_cost_conds fl' = f_cost_conds fl /\ f_dont_validate fl' = f_dont_validate fl /\
+   (f_no_unknown fl' = true -> f_no_unknown fl = true) /\
+   (f_strict fl' = true -> f_strict fl = true) /\
+   (f_limit_spends fl' = true -> f_limit_spends fl = true)) ->
+  forall t max_cost clvm_cost r,
+  parse_spends vk H K fl V t max_cost clvm_cost = Ok r ->
+  parse_spends vk H K fl' V t max_cost clvm_cost = Ok r.
+Print Assumptions C06_strict_implies_lenient.
+Check C06_parse_args_strict_implies_lenient :
+  forall fl fl',
+  (f_cost_conds fl' = f_cost_conds fl /\ f_dont_validate fl' = f_dont_validate fl /\
+   (f_no_unknown fl' = true -> f_no_unknown fl = true) /\
+   (f_strict fl' = true -> f_strict fl = true) /\
+   (f_limit_spends fl' = true -> f_limit_spends fl = true)) ->
+  forall c op cva, parse_args fl c op = Ok cva -> parse_args fl' c op = Ok cva.
+Print Assumptions C06_parse_args_strict_implies_lenient.
